@@ -36,6 +36,8 @@ var UTC = time.UTC
 // Unix mirrors time.Unix (pure).
 func Unix(sec int64, nsec int64) Time { return time.Unix(sec, nsec) }
 
+var noSim int64
+
 // local converts the global virtual clock to the calling process's clock.
 func local(p *simrt.Proc, v int64) int64 {
 	if p == nil || p.RateDen == 0 {
@@ -60,6 +62,11 @@ func toGlobal(p *simrt.Proc, d int64) int64 {
 // virtual clock by 1ns, so two readings are never equal (as on real hardware).
 func Now() Time {
 	s := simrt.S
+	if s == nil {
+		// Outside a simulation (disk-only sweeps): a private clock, 1ms per reading.
+		noSim += 1_000_000
+		return time.Unix(0, simrt.Epoch+noSim).UTC()
+	}
 	v := s.Tick()
 	return time.Unix(0, simrt.Epoch+local(simrt.CurProc(), v)).UTC()
 }
